@@ -458,13 +458,18 @@ func (d *defaultRouteBuilder) AddRoute(method, path string, operation *spec.Oper
 	}
 
 	d.debugLogf("operation: %#v", *operation)
-	if handler, ok := d.api.HandlerFor(method, strings.TrimPrefix(path, bp)); ok {
+	template := strings.TrimPrefix(path, bp)
+	if template == "" {
+		// the root template "/" joined to a base path is the base path itself
+		template = "/"
+	}
+	if handler, ok := d.api.HandlerFor(method, template); ok {
 		// the analyzer returns the media types as the keys of a map, i.e. in a random order:
 		// put them back in the order in which the description declares them, since that order
 		// breaks ties in content negotiation.
 		consumes := inDeclaredOrder(d.analyzer.ConsumesFor(operation), operation.Consumes, d.spec.Spec().Consumes)
 		produces := inDeclaredOrder(d.analyzer.ProducesFor(operation), operation.Produces, d.spec.Spec().Produces)
-		parameters := d.analyzer.ParamsFor(method, strings.TrimPrefix(path, bp))
+		parameters := d.analyzer.ParamsFor(method, template)
 
 		// add API defaults if not part of the spec
 		if defConsumes := d.api.DefaultConsumes(); defConsumes != "" && !swag.ContainsStringsCI(consumes, defConsumes) {
